@@ -199,7 +199,9 @@ class schur_pressure_correction {
                 )
             : prm(prm), n(backend::rows(K)), np(0), nu(0)
         {
-            init(std::make_shared<build_matrix>(K), bprm);
+            auto K_ptr = std::make_shared<build_matrix>(K);
+            sort_rows(*K_ptr);
+            init(K_ptr, bprm);
         }
 
         schur_pressure_correction(
